@@ -118,7 +118,7 @@ NewAct(kind, mb, src, dst, pay, sz, st, det, fin) ==
   [kind |-> kind, mb |-> mb, src |-> src, dst |-> dst, pay |-> pay, sz |-> sz, st |-> st, det |-> det, fin |-> fin,
    rp |-> (src = 0), doom |-> FALSE]
 PayloadId(s, a) == a * 1000 + s.pc[a]                       \* the driver builds the same identifier
-FinDate(P, s, d) == IF P.timed THEN s.now + d ELSE -1
+FinDate(P, s, d) == IF P.timed THEN s.now + P.lat + d ELSE -1      \* CM02, factors 1: latency + size / bandwidth
 StartSt(s) == IF s.loff THEN "failed" ELSE "run"          \* CommImpl::start: a failed link is detected immediately
 FirstIdx(s, q, Test(_)) == LET I == { i \in 1..Len(q) : Test(s.act[q[i]]) } IN
                            IF I = {} THEN 0 ELSE CHOOSE i \in I : \A j \in I : i <= j
